@@ -1,5 +1,5 @@
 """C01 — parse -> serialise loses nothing (dispatch lemmas XH + class lemmas Z3D + leaf lemmas XH)."""
-from vlib import classlemmas, dispatch_check, leaves, runner
+from vlib import classlemmas, dispatch_check, leaves, rootcheck, runner
 
 
 def check(tier):
@@ -9,5 +9,15 @@ def check(tier):
     for c, k, m in sat:
         classlemmas.replay_sat(chk, c, k, m)
     leaves.run_roundtrip_leaves(chk, tier)
-    chk.ev.coverage["explanation"] = "placeholder"
+    rootcheck.run(chk)
+    chk.ev.coverage["stubs"] = ["converter.structure(obj, attrs class) and _structure_func.dispatch(attrs class) return a Dispatched(cls, obj) token (the cut; recursive descent is replaced by the class lemma of the chosen class)", "format(symbolic, '') -> '<sym>'", "cattrs code generation under NoTracing", "handler lookup memoised outside tracing (lru_cache bypass)"]
+    chk.ev.coverage["outside_bounds"] = ["values nested deeper than the bound below a union as seen by a hook (covered by the induction of DESIGN 3.5, not by a lemma)", "arrays longer than the bound at hook-inspected positions", "strings longer than the bound"]
+    chk.ev.assumptions += ["cattrs generic machinery (_structure_list/_dict/_tuple/_optional, _unstructure_union, primitive coercion) behaves as documented (exercised concretely by the root round trips)", "CrossHair 0.0.110 and z3 5.1 are sound"]
+    chk.ev.coverage["rule"] = "dispatch lemmas (XH) per union position x alternative; class queries Q-acc, Q-keys, Q-emit (z3) per class; leaf lemmas (XH) per primitive / LSPAny handler; plus concrete minimal+maximal round trips of every root type as translator validation"
+    chk.ev.coverage["explanation"] = (
+        "Decomposition by induction on the JSON value (DESIGN 3.5): (1) union positions - CrossHair runs the real hook / disambiguator on every strictly valid value of each alternative (all presence subsets) and shows the object is handed unchanged to a class "
+        "for which it is strictly valid, so no declared key can be dropped by the choice of alternative; (2) classes - the cattrs-generated structure/unstructure text of every class is encoded in z3: no strictly valid presence vector raises (Q-acc), every declared key is "
+        "consumed into the attribute that is emitted under the same wire name (Q-keys), emitted keys = present keys + special keys (Q-emit); (3) leaves - str/int/float/bool and LSPAny payloads come back unchanged for symbolic values. "
+        "The composed claim is additionally exercised concretely on minimal and maximal samples of all root types."
+    )
     return chk.finish()
